@@ -688,6 +688,13 @@ static vector<Cfg> configs(int n, const string& set) {
       out.push_back(c);
     }
   }
+  // two polled messages with different IDs and the same lookup key (IDs beyond 4 bytes are folded into the key)
+  for (const string& ip : ips) {
+    if (ip.find('0') != string::npos || ip.find('-') != string::npos) continue;
+    Cfg c;
+    c.n = n; c.ip = ip; c.dt = 1; c.warm = 0; c.samekey = true;
+    out.push_back(c);
+  }
   // conditions on poll-world messages, resolved at any point of the history (a definition file loaded later): one message
   // has no priority of its own; with and without values in the messages
   for (const string& ip : ips) {
@@ -719,6 +726,7 @@ static bool parseCfg(const std::map<string, string>& m, Cfg* c) {
   c->chain = get("chain").empty() ? -1 : atoi(get("chain").c_str());
   c->silent = get("silent").empty() ? -1 : atoi(get("silent").c_str());
   c->cond = get("cond") == "1";
+  c->samekey = get("samekey") == "1";
   if (c->n < 1 || c->n > MAXSLOT || static_cast<int>(c->ip.size()) != c->n || c->dt < 0 || c->warm < 0) return false;
   for (char ch : c->ip) if (ch != '-' && (ch < '0' || ch > '9')) return false;
   return true;
